@@ -10,7 +10,9 @@ import (
 	"os"
 	"path"
 	"sort"
+	"strconv"
 	"strings"
+	"testing/iotest"
 	"time"
 
 	"github.com/folbricht/desync"
@@ -93,6 +95,83 @@ func implFmtNext(line string) string {
 			return "ok end"
 		}
 		return fmt.Sprintf("ok %s rest=%d", elemStr(e), r.Len())
+	})
+}
+
+// plainReader hides every method of the reader it wraps except Read (no Seek, no WriteTo, no ReadAt)
+type plainReader struct{ r io.Reader }
+
+func (p plainReader) Read(b []byte) (int, error) { return p.r.Read(b) }
+
+// fmt.walk bytes= takes=k1,k2,… src=bytes|file|plain|onebyte : FormatDecoder.Next until the end of the stream; of the i-th
+// payload the caller reads k_i bytes (nothing once the list is used up) and goes on.  The source is a bytes.Reader or an
+// os.File (both can seek), or a reader that can only read.  Whatever the source can do, a stream that ends before a
+// payload does is malformed.
+func implFmtWalk(line string) string {
+	_, a := parseCase(line)
+	b := unhx(a["bytes"])
+	var takes []int
+	if a["takes"] != "" {
+		for _, t := range strings.Split(a["takes"], ",") {
+			k, _ := strconv.Atoi(t)
+			takes = append(takes, k)
+		}
+	}
+	return guard(func() string {
+		var r io.Reader
+		switch a["src"] {
+		case "file":
+			f, err := os.CreateTemp("", "vh-walk")
+			if err != nil {
+				return "harness-error " + err.Error()
+			}
+			defer os.Remove(f.Name())
+			defer f.Close()
+			f.Write(b)
+			f.Seek(0, io.SeekStart)
+			r = f
+		case "plain":
+			r = plainReader{bytes.NewReader(b)}
+		case "onebyte":
+			r = iotest.OneByteReader(bytes.NewReader(b))
+		default:
+			r = bytes.NewReader(b)
+		}
+		d := desync.NewFormatDecoder(r)
+		var out []string
+		for i := 0; i <= len(b)+1; i++ {
+			e, err := d.Next()
+			if err != nil {
+				return "err " + fmtErrKind(err)
+			}
+			if e == nil {
+				return "ok " + strings.Join(out, ";")
+			}
+			if p, ok := e.(desync.FormatPayload); ok {
+				var got []byte
+				if len(takes) > 0 {
+					k := takes[0]
+					takes = takes[1:]
+					buf := make([]byte, k)
+					n, err := io.ReadFull(p.Data, buf)
+					got = buf[:n]
+					// fewer bytes than asked for is fine when the payload is that short; a stream that ended is not
+					if err == io.ErrUnexpectedEOF && uint64(n) == p.Size-16 {
+						err = nil
+					}
+					if err == io.EOF && p.Size == 16 {
+						err = nil
+					}
+					if err != nil {
+						return "err " + fmtErrKind(err)
+					}
+				}
+				out = append(out, elemStr(e)+"="+hx(got))
+				continue
+			}
+			out = append(out, elemStr(e))
+		}
+		return "err no-end"
 	})
 }
 
